@@ -8,6 +8,38 @@ import (
 
 func init() {
 	zzRegister("zzH_C08_negsize", zzH_C08_negsize)
+	zzRegister("zzH_C08_reuse", zzH_C08_reuse)
+}
+
+// zzH_C08_reuse: a skip decoder that has rejected one input agrees with the grammar on its next
+// input (after Reset, or after Release and re-acquisition of the pooled object).
+func zzH_C08_reuse() {
+	bad := zzBytes("bad", zzInt("nbad", 0, 4))
+	t1 := TType(STRUCT) // a struct fails after consuming a symbolic number of bytes
+	_, c1 := zzRefSkip(bad, t1, 64)
+	zzAssume(c1 != zzOK)
+	good := zzBytes("good", zzInt("ngood", 0, 5))
+	t2 := zzKnownTypes[zzPick("t2", 0, 10)]
+	want, c2 := zzRefSkip(good, t2, 64)
+	d := NewBytesSkipDecoder(bad)
+	_, err := d.Next(t1)
+	zzAssert(err != nil, "BytesSkipDecoder accepts a malformed value")
+	if zzBool("viaPool") {
+		d.Release()
+		d = NewBytesSkipDecoder(good)
+	} else {
+		d.Reset(good)
+	}
+	out, err := d.Next(t2)
+	if c2 == zzOK {
+		zzAssert(err == nil, "a reused BytesSkipDecoder rejects a well-formed value")
+		if err == nil {
+			zzAssert(len(out) == want, "a reused BytesSkipDecoder reports a different extent")
+		}
+	} else {
+		zzAssert(err != nil, "a reused BytesSkipDecoder accepts a malformed value")
+	}
+	zzReach("done")
 }
 
 // zzH_C08_negsize: a declared size with the top bit set (negative as a Thrift i32) is rejected by
